@@ -155,6 +155,7 @@ fn run_case_inner(case: &Case) -> CaseResult {
         .label_if(h.chain.base_sizes != [0, 0, 0], "non-empty-birthday-frontier")
         .label_if(h.chain.crossed_shard_boundary(), "shard-boundary-crossed")
         .label_if(h.flags.subtree_roots_put > 0, "subtree-roots-put")
+        .label_if(h.flags.remined_txs > 0, "wallet-tx-mined-again-after-reorg")
         .label_if(f.early_spend_in_big_out_of_order_batch, "batch>102-above-gap-with-early-spend-of-gap-note")
         .label_if(deep, "chain>100")
         .label_if(st.live_orphan_states > 0, "live-orphan-state")
@@ -183,13 +184,13 @@ fn main() {
     ctx.assume("a note is never spent in the block that creates it (anchors refer to earlier blocks), so the generator does not produce that");
     ctx.assume("the client calls update_chain_tip before scanning and truncates before scanning a different continuation (documented flow)");
     let tier = ctx.tier;
-    ctx.run_prop_with("histories", || arb_case(22, 12), tier.pick(480, 20_000), 80, run_case);
+    ctx.run_prop_with("histories", || arb_case_opts(22, 12, true), tier.pick(480, 20_000), 80, run_case);
     ctx.require_label_fraction("histories", "out-of-order", 0.25);
     ctx.require_label_fraction("histories", "rewind-removes-wallet-tx", 0.10);
     ctx.require_label_fraction("histories", "spend-before-receipt", 0.05);
     ctx.require_label_fraction("histories", "orphan-expiry-boundary-probed", 0.04);
-    ctx.run_prop_with("long-chains", || arb_case(14, 100), tier.pick(128, 4_000), 60, run_case);
-    ctx.require_label_fraction("long-chains", "chain>100", 0.9);
-    ctx.require_label_fraction("long-chains", "batch>102", 0.2);
+    ctx.run_prop_with("long-chains", || arb_case_opts(14, 100, true), tier.pick(128, 4_000), 60, run_case);
+    ctx.require_label_fraction("long-chains", "chain>100", 0.5);
+    ctx.require_label_fraction("long-chains", "batch>102", 0.1);
     ctx.finish();
 }
